@@ -139,6 +139,7 @@ func runC11(c *Check) {
 	c.scanDirections(prune, pruneFrom)
 	c.pruneShape(prune, pruneFrom)
 	c.simplifiedNameIsTrimmed()
+	c.pruneIsStateless()
 }
 
 // scanDirections (R5): Prune looks for the first match scanning from the root, so its
